@@ -136,10 +136,13 @@ def cases(M):
             continue
         yield {"k": "boundaries", "chunk": ci, "nchunk": 64, "stride": 1 if thorough else 11, "phase": r.randrange(11)}
     yield {"k": "randts", "n": (1000000 if thorough else 100000) // M.nshards, "seed": r.randrange(1 << 30)}
+    if M.shard % 4 == 2:
+        yield {"k": "midnight-gap-months"}
 
 
 _ZONES = ["Europe/Paris", "America/New_York", "Australia/Sydney", "Australia/Lord_Howe", "Pacific/Apia", "Europe/Dublin",
-          "Asia/Kathmandu", "Pacific/Kiritimati", "America/St_Johns", "Africa/Casablanca", "Pacific/Chatham"]
+          "Asia/Kathmandu", "Pacific/Kiritimati", "America/St_Johns", "Africa/Casablanca", "Pacific/Chatham",
+          "America/Asuncion", "America/Havana", "Asia/Amman", "Africa/Cairo", "America/Sao_Paulo", "Europe/Moscow"]     # gaps at midnight
 _EDGES = [(0, 0, 0, 0), (0, 30, 0, 0), (23, 59, 59, 999999), (23, 30, 0, 0), (0, 59, 59, 999999), (1, 0, 0, 0), (12, 0, 0, 0)]
 _TZ = {}
 
@@ -148,6 +151,26 @@ def _tz(P, zn):
     if zn not in _TZ:
         _TZ[zn] = P.timezone(zn)
     return _TZ[zn]
+
+
+def _expected(d):
+    y, m, dd = d.year, d.month, d.day
+    wom = (dd - 1 + dt.date(y, m, 1).weekday()) // 7 + 1      # row of the Monday-first month grid (no use of calendar's global first weekday)
+    return (d.weekday(), d.timetuple().tm_yday, d.isocalendar()[1], wom, calendar.monthrange(y, m)[1], (m - 1) // 3 + 1,
+            calendar.isleap(y), dt.date(y, 12, 28).isocalendar()[1] == 53)
+
+
+def _judge_getters(M, kind, x, exp, d):
+    try:
+        got = (int(x.day_of_week), x.day_of_year, x.week_of_year, x.week_of_month, x.days_in_month, x.quarter,
+               x.is_leap_year(), x.is_long_year())
+    except Exception as e:  # noqa: BLE001
+        got = ("raise", repr(e))
+    names = ("day_of_week", "day_of_year", "week_of_year", "week_of_month", "days_in_month", "quarter", "is_leap_year",
+             "is_long_year")
+    bad = [n for n, g, e in zip(names, got, exp) if g != e] if got[0] != "raise" else ["raised"]
+    M.check("getters", not bad, f"C15/getter:{kind}:{'+'.join(bad)}", "getter differs from the standard library",
+            date=[d.year, d.month, d.day], got=list(got), expected=list(exp), value=repr(x))
 
 
 def _safe(f, *a):
@@ -160,9 +183,7 @@ def _safe(f, *a):
 def _getters(M, P, d, w):
     """judge the eight getters on Date and DateTime for native date d"""
     y, m, dd = d.year, d.month, d.day
-    wom = (dd - 1 + dt.date(y, m, 1).weekday()) // 7 + 1      # row of the Monday-first month grid (no use of calendar's global first weekday)
-    exp = (d.weekday(), d.timetuple().tm_yday, d.isocalendar()[1], wom, calendar.monthrange(y, m)[1], (m - 1) // 3 + 1,
-           calendar.isleap(y), dt.date(y, 12, 28).isocalendar()[1] == 53)
+    exp = _expected(d)
     # the getters depend on the calendar date only: a naive value at the last microsecond of the day and a zone-aware one
     # at a day-edge wall time (zone and wall time rotate with the ordinal) must answer exactly like the plain Date
     o = d.toordinal()
@@ -171,16 +192,7 @@ def _getters(M, P, d, w):
     for kind, x in (("date", P.Date(y, m, dd)), ("datetime", P.DateTime(y, m, dd, 12, tzinfo=P.UTC)),
                     ("datetime-naive", P.DateTime(y, m, dd, 23, 59, 59, 999999)),
                     ("datetime-zone", P.DateTime(y, m, dd, *hms, tzinfo=_tz(P, zn), fold=o % 2))):
-        try:
-            got = (int(x.day_of_week), x.day_of_year, x.week_of_year, x.week_of_month, x.days_in_month, x.quarter,
-                   x.is_leap_year(), x.is_long_year())
-        except Exception as e:  # noqa: BLE001
-            got = ("raise", repr(e))
-        names = ("day_of_week", "day_of_year", "week_of_year", "week_of_month", "days_in_month", "quarter", "is_leap_year",
-                 "is_long_year")
-        bad = [n for n, g, e in zip(names, got, exp) if g != e] if got[0] != "raise" else ["raised"]
-        M.check("getters", not bad, f"C15/getter:{kind}:{'+'.join(bad)}", "getter differs from the standard library",
-                date=[y, m, dd], got=list(got), expected=list(exp))
+        _judge_getters(M, kind, x, exp, d)
 
 
 def run(M, c):
@@ -191,6 +203,34 @@ def run(M, c):
     if k == "noop":
         return
     M.current = c
+    if k == "midnight-gap-months":
+        # zone-aware values (either fold) in the first hour of every day of a month whose 1st has its midnight skipped:
+        # the getters still depend on the calendar date alone
+        from pvmon import gen as _gen
+        from pvmon.common import US as _US, us_to_fields as _utf
+        from pvmon.oracle import tzdb as _tzdb
+
+        n = 0
+        for zn in _gen.all_zones():
+            z = _tzdb.Z.get(zn)
+            for (t, ob, oa, _k) in z.trans:
+                if oa <= ob:
+                    continue
+                f = _utf((t + ob) * _US)
+                if f[2] != 1 or f[3:6] != (0, 0, 0) or not 1900 < f[0] < 2037:
+                    continue
+                tz = _tz(P, zn)
+                for dd in range(1, calendar.monthrange(f[0], f[1])[1] + 1):
+                    d = dt.date(f[0], f[1], dd)
+                    exp = _expected(d)
+                    for fold in (0, 1):
+                        for hms in ((0, 30, 0, 0), (0, 0, 0, 0), (12, 0, 0, 0)):
+                            x = P.DateTime(f[0], f[1], dd, *hms, tzinfo=tz, fold=fold)
+                            _judge_getters(M, "datetime-zone:midnight-gap-month", x, exp, d)
+                            n += 1
+                M.cls("mgm", zn, f[0], f[1])
+        M.sample({"k": k, "n": n})
+        return
     if k == "years":
         for y in range(1, 10000):
             M.progress()
